@@ -227,7 +227,7 @@ PROPS = {
         'not_reached': [],
     },
     'C03': {
-        'units': ['posmaps', 'header', 'ctor', 'posmaps_count', 'pyglue'], 'deps': ['kmer_gen', 'n2k'], 'replay': 'c03,c12,c13',
+        'units': ['posmaps', 'header', 'ctor', 'posmaps_count', 'pyglue'], 'deps': ['kmer_gen', 'n2k', 'mmap_rows', 'batch_loops'], 'replay': 'c03,c12,c13',
         'level_text': 'Verus proves for the verbatim kmer_pos_maps and every k in 1..=15 that (pos_map, pos_kmer, count) is the order isomorphism between [0,count) '
                       'and the canonical k-mers (x <= revcomp(x)): canonical codes map to indices below count and back, the index->code map is strictly increasing '
                       '(hence index == rank in increasing code order), non-canonical entries are 0 and the map has no other key; and that the three header builders '
@@ -241,7 +241,7 @@ PROPS = {
                         'String::join with the delimiter and the write of the header line (std)'],
     },
     'C04': {
-        'units': ['oligo_vec', 'float_kani', 'ctor', 'pyglue'], 'deps': ['kmer_gen', 'posmaps', 'mmap_rows', 'batch_loops', 'reader_glue'], 'replay': 'c04,c13',
+        'units': ['oligo_vec', 'float_kani', 'ctor', 'pyglue'], 'deps': ['kmer_gen', 'posmaps', 'mmap_rows', 'batch_loops', 'reader_glue'], 'replay': 'c04,c01,c13',
         'level_text': 'Verus proves for the verbatim accumulation loop (three copies: oligo.rs vectorise_one, oligocgr.rs seq_to_kmer, pybindings vectorise_one), '
                       'every byte string shorter than 2^53 and every k in 1..=15: the row has one value per canonical column and column i holds of_nat(number of valid '
                       'windows whose canonical code is the column k-mer), raw, or divided by fmax(1, total valid windows) when normalised (all-zero row when there is no window); '
@@ -253,7 +253,7 @@ PROPS = {
         'not_reached': ['text rendering of the row (format!("{:.6}"), join) and the file/CLI path: see C05', 'pyo3 argument conversion for the binding'],
     },
     'C14': {
-        'units': ['mmap_rows', 'oligo_vec', 'cov_vec', 'count_route', 'reader_glue', 'sched_rows'], 'deps': ['kmer_gen', 'posmaps', 'header'], 'replay': 'c14,c08',
+        'units': ['mmap_rows', 'oligo_vec', 'cov_vec', 'count_route', 'reader_glue', 'sched_rows'], 'deps': ['kmer_gen', 'posmaps', 'header'], 'replay': 'c14,c08,c01',
         'level_text': 'Verus proves (a) every get_unchecked / get_unchecked_mut call site of the oligo accumulation loops (3 copies) against exactly the '
                       'safety precondition of the unchecked access, for every byte string and every k <= 15; (b) for the integer layout statements of vectorise_mmap, lifted '
                       'verbatim: per-row size equals the real row length for every delimiter length, the mapping size is header + records x row length (exact tiling), and each '
@@ -275,7 +275,7 @@ PROPS = {
         'not_reached': ['sub-square containment beyond one halving (j > 1) and exact dyadic values', 'file-level batching/ordering of cgr.rs::vectorise (see C05-style loop contracts if listed)', 'pyo3 mapping of Err to ValueError'],
     },
     'C08': {
-        'units': ['cov_vec', 'batch_loops', 'float_kani', 'ctor'], 'deps': ['kmer_gen', 'count_route', 'reader_glue'], 'replay': 'c08',
+        'units': ['cov_vec', 'batch_loops', 'float_kani', 'ctor'], 'deps': ['kmer_gen', 'count_route', 'reader_glue'], 'replay': 'c08,c07,c01',
         'level_text': 'Verus proves for the verbatim CovComputer::vectorise_one, every byte string, every k <= 31, every bin size and bin count >= 1 and every counts table: the row has '
                       'bin-count entries and entry b is of_nat(number of valid windows whose canonical k-mer has multiplicity c in the table with min(c / bin-size, bin-count - 1) == b), absent k-mers '
                       'counting 0, raw or divided by fmax(1, total); the unchecked index is in bounds. For the lifted batch loop of compute_coverages: every record is rendered exactly once, in reader order, including the final flush.',
@@ -304,7 +304,7 @@ PROPS = {
         'not_reached': ['record parsing inside bio (ids, CRLF, wrapping, FASTQ)', 'suffix inference beyond the bounded Kani stand-in', 'summary statistics loop (bio records() again)'],
     },
     'C05': {
-        'units': ['mmap_rows', 'batch_loops', 'reader_glue', 'sched_rows'], 'deps': [], 'replay': 'c05',
+        'units': ['mmap_rows', 'batch_loops', 'reader_glue', 'sched_rows'], 'deps': ['oligo_vec', 'kmer_gen', 'posmaps'], 'replay': 'c05',
         'level_text': 'Narrow claim: the sequential obligations that make row i belong to record i are proved; schedule independence then rests on assumed contracts of Mutex, rayon::scope and par_iter/collect. '
                       '(1) Sequences::next hands out ordinal n == number of records delivered before (it takes &mut self, so calls are totally ordered); (2) mmap path: the write offset and length of a row are '
                       'exactly slot record.n of the exact tiling header + records x row length - a function of the record alone, so the file does not depend on write order; (3) batch path: the lifted loop renders every record exactly once in reader order including the final flush; (4) unit sched_rows proves, over sequences of writes, that pairwise disjoint writes give the same file in every order '
@@ -314,7 +314,7 @@ PROPS = {
         'not_reached': ['worker interleavings (assumed primitives)', 'container equivalence (bio/flate2)', 'closure glue between the lifted fragments'],
     },
     'C12': {
-        'units': ['oligocgr_vec', 'oligo_vec', 'header', 'cgr', 'batch_loops', 'float_kani', 'cli_wiring'], 'deps': ['kmer_gen', 'posmaps', 'n2k', 'reader_glue'], 'replay': 'c12',
+        'units': ['oligocgr_vec', 'oligo_vec', 'header', 'cgr', 'batch_loops', 'float_kani', 'cli_wiring'], 'deps': ['kmer_gen', 'posmaps', 'n2k', 'reader_glue'], 'replay': 'c12,c01',
         'level_text': 'Verus proves for the verbatim OligoCgrComputer::vectorise_one: the row has one triple per canonical column, in column order; (x,y) is the chaos-game end point '
                       '(midpoint recurrence from the centre) of the column k-mer text - a function of the column alone, hence the same in every row - and f is exactly the value the oligo row contract (C04, '
                       'same spec, proved for seq_to_kmer) gives that column; the record is never rejected. The k-mer table, the private cgr_maps copy and the batch loop of this subcommand are under the C03/C11/C05 contracts.',
@@ -333,7 +333,7 @@ PROPS = {
         'fn_filter': r'^py::',
     },
     'C07': {
-        'units': ['count_route', 'sched_count'], 'deps': ['kmer_gen', 'n2k', 'reader_glue'], 'replay': 'c07',
+        'units': ['count_route', 'sched_count'], 'deps': ['kmer_gen', 'n2k', 'reader_glue'], 'replay': 'c07,c01',
         'level_text': 'Narrow claim. Verus proves for the lifted per-record loop of count_chunk, every byte string, k <= 31 and every partition count >= 1: each valid window causes exactly one increment, of its '
                       'canonical code, in partition (code mod n_parts), nothing else in the table changes, and the unchecked partition index is in bounds; hence a k-mer lives in exactly one partition across all chunks. '
                       'ACGT rendering uses numeric_to_kmer (C02 contract). Schedule clause (one chunk): units sched_count / count_route prove, as lemmas over sequences of atomic updates, that the table reached '
